@@ -103,12 +103,26 @@ class Predicates:
             return self.eval(e['c'][1] if c else e['c'][2], env, universe)
         if k == 'CallExpr' and e.get('callee'):
             args = F.call_args(e)
+            g = self.tu.funcs.get(e['callee'])
+            if g is not None and getattr(self, '_depth', 0) < 6:
+                body = F.kids(g.body)
+                if len(body) == 1 and body[0]['k'] == 'ReturnStmt' and F.kids(body[0]) and len(g.params) == len(args):
+                    env2 = {}
+                    for prm, a in zip(g.params, args):
+                        env2[prm['n']] = self.eval(a, env, universe)
+                    self._depth = getattr(self, '_depth', 0) + 1
+                    try:
+                        r = self.eval(F.kids(body[0])[0], {k2: v2 for k2, v2 in env2.items() if v2 is not None}, universe)
+                    finally:
+                        self._depth -= 1
+                    if r is not None:
+                        return r
             if not args:
                 return None
             v = self.eval(args[-1], env, universe)
             if v is None:
                 return None
-            ts = self.true_set(e['callee'], universe)
+            ts = self.true_set(e['callee'], universe) if universe else None
             if ts is None:
                 return None
             return int(v in ts)
